@@ -19,13 +19,13 @@ Proof. apply res_eqb_spec; [apply nat_eqb_spec | apply exc_eqb_spec]. Qed.
 Lemma natlist_eqb_spec a b : list_eqb Nat.eqb a b = true <-> a = b.
 Proof. apply list_eqb_spec, nat_eqb_spec. Qed.
 
-Lemma optbool_eqb_spec a b : option_eqb Bool.eqb a b = true <-> a = b.
-Proof. apply option_eqb_spec, bool_eqb_spec. Qed.
+Lemma boollist_eqb_spec a b : list_eqb Bool.eqb a b = true <-> a = b.
+Proof. apply list_eqb_spec, bool_eqb_spec. Qed.
 
 Lemma robs_eqb_spec a b : robs_eqb a b = true <-> a = b.
 Proof.
   destruct a, b; unfold robs_eqb; simpl.
-  rewrite !andb_true_iff, result_eqb_spec, optbool_eqb_spec, !natlist_eqb_spec, !bool_eqb_spec, !nat_eqb_spec.
+  rewrite !andb_true_iff, result_eqb_spec, boollist_eqb_spec, !natlist_eqb_spec, !bool_eqb_spec, !nat_eqb_spec.
   split.
   - intros [[[[[[[[[[-> ->] ->] ->] ->] ->] ->] ->] ->] ->] ->]. reflexivity.
   - intro H; injection H; intros; subst; repeat split; reflexivity.
@@ -142,7 +142,8 @@ Proof.
     repeat split.
     + apply allowed_sound; exact H1.
     + apply natlist_eqb_spec; exact H2.
-    + apply optbool_eqb_spec; exact H3.
+    + apply andb_true_iff in H3 as [H3 _]. rewrite forallb_forall in H3. intros b Hb. exact (H3 b Hb).
+    + apply andb_true_iff in H3 as [_ H3]. apply Nat.leb_le. exact H3.
     + apply perm_eqb_counts; exact H4.
     + intro Hin. unfold own_junk_okb in H5. apply has_In in Hin. rewrite Hin in H5.
       apply result_eqb_spec; exact H5.
@@ -152,7 +153,7 @@ Proof.
     + apply natlist_eqb_spec; exact H2.
     + apply natlist_eqb_spec; exact H3.
     + apply natlist_eqb_spec; exact H4.
-    + apply optbool_eqb_spec; exact H5.
+    + apply boollist_eqb_spec; exact H5.
 Qed.
 
 Lemma runs_sound rss : forall prev ps os, runs_okb prev ps rss os = true -> Runs_spec prev ps rss os.
